@@ -29,7 +29,7 @@ ASSUMPTIONS = [
 
 # the two mixins are compared on ordinary classes, on classes whose instances all compare equal, and on classes that
 # override the public `children` property with a reversed view (setter and deleter are the mixin's own)
-PAIRS = {"plain": ("HNM", "HLM"), "eq": ("HEqNM", "HEqLM"), "rev": ("HRevNM", "HRevLM")}
+PAIRS = {"plain": ("HNM", "HLM"), "eq": ("HEqNM", "HEqLM"), "rev": ("HRevNM", "HRevLM"), "seal": ("HSealNM", "HSealLM")}
 
 
 def outcome(exc):
@@ -191,7 +191,35 @@ def check_deep(case, acc):
     acc.tag("deep_chain_cases")
 
 
+def check_band(case, acc):
+    """The downward-recursive attributes on chains whose length is a fraction of the interpreter's recursion limit, well
+    away from the depths at which either outcome flips (height costs two frames per level, the iterators one): value or
+    exception class, both mixins give the same."""
+    import sys
+
+    depth = int(case["factor"] * sys.getrecursionlimit())
+    seen = []
+    for clsname in ("PlainNM", "SlotLM"):
+        chain = big.build_chain(nodes.factory(clsname), depth, "parent")
+        twig = nodes.factory(clsname)(depth)
+        twig.parent = chain[depth // 2]
+        out = {}
+        for key, func in (("height", lambda: chain[0].height), ("mid.height", lambda: chain[depth // 2].height), ("descendants", lambda: len(chain[0].descendants)), ("leaves", lambda: len(chain[0].leaves)), ("size", lambda: chain[1].size), ("depth", lambda: chain[-1].depth)):
+            try:
+                out[key] = func()
+            except Exception as exc:  # noqa: BLE001 - exception classes are compared
+                out[key] = "raised " + type(exc).__name__
+        seen.append(out)
+    for key in seen[0]:
+        if seen[0][key] != seen[1][key]:
+            raise Violation("query:" + key, "chain of %d nodes (%.2f x the recursion limit): NodeMixin %r, LightNodeMixin %r" % (depth, case["factor"], seen[0][key], seen[1][key]))
+    acc.nontrivial(True)
+    acc.tag("recursion_band_cases")
+
+
 def check_case(case, acc):
+    if case.get("kind") == "band":
+        return check_band(case, acc)
     if case.get("flip_config"):
         # the documentation tells users to switch the consistency checks on from their own code (anytree.config.ASSERTIONS =
         # True after the import): whatever that does, it does the same for both mixins
@@ -294,6 +322,9 @@ def plan(tier, seed):
                     tasks.append({"engine": "enum", "pair": "rev", "n": n, "index": i, "count": shards, "maxlen": None, "routes": ["parent"]})
     for route in ("parent", "children"):
         tasks.append({"engine": "deep", "route": route})
+    for n in (2, 3):
+        tasks.append({"engine": "seal", "n": n})
+    tasks.append({"engine": "band", "factors": [0.3, 0.7] if tier == "quick" else [0.1, 0.2, 0.3, 0.7, 0.8, 1.3]})
     examples = 80 if tier == "quick" else 500
     for i in range(nshards):
         tasks.append({"engine": "hyp", "examples": examples, "seed": seed * 1000 + i})
@@ -301,19 +332,32 @@ def plan(tier, seed):
 
 
 def run_task(task, acc):
+    if task["engine"] == "band":
+        for factor in task["factors"]:
+            case = {"kind": "band", "factor": factor}
+            exc = acc.evaluate(check_case, case, enumerated=False)
+            if exc is not None:
+                acc.add_violation(case, exc)
+                break
+        return
     if task["engine"] == "deep":
         case = {"kind": "deep", "route": task["route"]}
         exc = acc.evaluate(check_case, case, enumerated=False)
         if exc is not None:
             acc.add_violation(case, exc)
         return
+    if task["engine"] == "seal":
+        # one node refuses every attribute write for the duration of the call (a sealed old parent, new parent, moving node ...)
+        plain = mut.enum_fault_cases("HNM", task["n"], 0, 1, fault_hooks=(), pairs=False, invalid=False, maxlen=None, routes=["parent"])
+        cases = (dict(c, pair="seal", steps=[{"op": c["steps"][0]["op"], "plan": {"sealed": [label]}}, {"op": c["steps"][0]["op"], "plan": {}}]) for c in plain for label in range(task["n"]))
+        return acc.run_enum(check_case, cases)
     if task["engine"] == "enum":
         cases = mut.enum_fault_cases("HNM", task["n"], task["index"], task["count"], fault_hooks=mut.HOOKS if task.get("pair", "plain") == "plain" else (), pairs=False, invalid=False, maxlen=task["maxlen"], routes=task["routes"], evict=True)
         acc.run_enum(check_case, (dict(c, pair=task.get("pair", "plain"), full_queries=(k % 4 == 0), flip_config=(k % 3 == 1)) for k, c in enumerate(cases)))
     else:
         from hypothesis import strategies as st
 
-        strat = st.tuples(mut.history_strategy(max_nodes=7, max_steps=25, faults="all+evict", invalid=False, class_specs=["HNM"]), st.sampled_from(["plain", "plain", "eq", "rev"])).map(lambda t: dict(t[0], pair=t[1], flip_config=(len(t[0]["steps"]) % 3 == 1), reads_between=(t[0]["n"] % 3 != 0) if len(t[0]["steps"]) % 2 else [[len(t[0]["steps"]) + j, j * j] [: j % 3] for j in range(1, 6)]))
+        strat = st.tuples(mut.history_strategy(max_nodes=7, max_steps=25, faults="all+evict", invalid=False, class_specs=["HNM"]), st.sampled_from(["plain", "plain", "eq", "rev", "seal"])).map(lambda t: dict(t[0], pair=t[1], flip_config=(len(t[0]["steps"]) % 3 == 1), reads_between=(t[0]["n"] % 3 != 0) if len(t[0]["steps"]) % 2 else [[len(t[0]["steps"]) + j, j * j] [: j % 3] for j in range(1, 6)]))
         acc.run_hypothesis(check_case, strat, task["examples"], task["seed"])
 
 
